@@ -82,17 +82,35 @@ fn law(c: &Case, attempt: u32) -> u128 {
     }
 }
 
-fn run_case(c: &Case) -> (String, Result<(), String>) {
+/// The configuration is what the last call of each setter said, in whatever order the setters were called and whatever
+/// they were given before: `order` picks one of the six orders of (attempts, step, maximum) and whether each setter is
+/// first called with another value.
+fn build(c: &Case, order: u64) -> BackoffStrategy {
     let mut b = match c.strat {
         'L' => BackoffStrategy::linear(),
         'C' => BackoffStrategy::constant(),
         'E' => BackoffStrategy::exponential(c.factor),
         _ => unreachable!(),
     };
-    b = b.with_max_attempts(c.attempts).with_step(c.step);
-    if let Some(m) = c.max {
-        b = b.with_max_duration(m);
+    let perms = [[0, 1, 2], [0, 2, 1], [1, 0, 2], [1, 2, 0], [2, 0, 1], [2, 1, 0]];
+    let twice = (order / 6) % 8;
+    if twice & 1 != 0 { b = b.with_max_attempts(c.attempts.wrapping_add(7)); }
+    if twice & 2 != 0 { b = b.with_step(c.step.saturating_add(Duration::from_millis(1500))); }
+    if twice & 4 != 0 { if let Some(m) = c.max { b = b.with_max_duration(Duration::from_nanos((dur_nanos(m) / 3) as u64)); } }
+    for k in perms[(order % 6) as usize] {
+        match k {
+            0 => b = b.with_max_attempts(c.attempts),
+            1 => b = b.with_step(c.step),
+            _ => if let Some(m) = c.max { b = b.with_max_duration(m); },
+        }
     }
+    b
+}
+
+fn run_case(c: &Case) -> (String, Result<(), String>) {
+    // (the order is a function of the case, so that a replay builds the same way)
+    let order = c.line().bytes().fold(0u64, |h, x| h.wrapping_mul(131).wrapping_add(x as u64));
+    let b = build(c, order);
     let mut it = b.into_iter();
     let mut out = String::new();
     let mut mon: Result<(), String> = Ok(());
@@ -125,6 +143,28 @@ fn run_case(c: &Case) -> (String, Result<(), String>) {
                         mon = Err(format!("attempt {}: delay {}ns, law gives {}ns", produced, dur_nanos(n.duration), law(c, produced)));
                     }
                 }
+            }
+        }
+    }
+    // the same schedule through the rest of the Iterator protocol (what `collect`, `zip`, `len`-style callers use): the
+    // size hints of a fresh and of an exhausted iterator, and `collect()`, must not panic and must agree with `next()`
+    if !panicked && mon.is_ok() && c.attempts <= 4096 {
+        let r = catch(|| {
+            let mut it = build(c, order / 7).into_iter();
+            let h0 = it.size_hint();
+            let v: Vec<_> = it.by_ref().collect();
+            let h1 = it.size_hint();
+            let again = it.next().is_some();
+            (h0, v.iter().map(|n| (n.attempt_num, dur_nanos(n.duration))).collect::<Vec<_>>(), h1, again)
+        });
+        match r {
+            Err(p) => mon = Err(format!("the schedule iterator panicked outside next() (size_hint / collect): {p}")),
+            Ok((h0, v, h1, again)) => {
+                let n = c.attempts as usize;
+                if v.len() != n { mon = Err(format!("collect() yields {} attempts, configured {n}", v.len())); }
+                else if let Some((i, (num, d))) = v.iter().enumerate().find(|(i, (num, d))| *num as usize != i + 1 || *d != law(c, *i as u32 + 1)) { mon = Err(format!("collect(): attempt {} is numbered {num} with delay {d}ns, law gives {}ns", i + 1, law(c, i as u32 + 1))); }
+                else if h0.0 > n || h0.1.map(|u| u < n).unwrap_or(false) { mon = Err(format!("size_hint {h0:?} of a fresh schedule of {n} attempts")); }
+                else if h1.0 != 0 || again { mon = Err(format!("an exhausted schedule reports size_hint {h1:?} / yields again: {again}")); }
             }
         }
     }
